@@ -3,6 +3,7 @@ package query
 import (
 	"bytes"
 	"fmt"
+	"strconv"
 	"strings"
 	"sync"
 	"time"
@@ -146,7 +147,7 @@ func SerializeKey(buf *bytes.Buffer, val value.Primary, flags *option.Flags) {
 		serializeInteger(buf, in.(*value.Integer).String())
 		value.Discard(in)
 	} else if f := value.ToFloat(val); !value.IsNull(f) {
-		serializeFloat(buf, f.(*value.Float).String())
+		serializeComparableFloat(buf, f.(*value.Float).String())
 		value.Discard(f)
 	} else if dt := value.ToDatetime(val, flags.DatetimeFormat, flags.GetTimeLocation()); !value.IsNull(dt) {
 		serializeDatetime(buf, dt.(*value.Datetime).Raw())
@@ -199,6 +200,19 @@ func serializeFloat(buf *bytes.Buffer, s string) {
 		s = "0"
 	}
 	buf.WriteString(s)
+}
+
+// serializeComparableFloat is used where keys follow value equality rather than exact types:
+// a float with an integral value equals that integer and gets the same key.
+func serializeComparableFloat(buf *bytes.Buffer, s string) {
+	if s == "-0" {
+		s = "0"
+	}
+	if _, err := strconv.ParseInt(s, 10, 64); err == nil {
+		serializeInteger(buf, s)
+		return
+	}
+	serializeFloat(buf, s)
 }
 
 func serializeDatetime(buf *bytes.Buffer, t time.Time) {
